@@ -153,6 +153,49 @@ def rename_variant(src: str, filename: str) -> str:
     return out
 
 
+class _Swapper(ast.NodeTransformer):
+    """a & b -> b & a (also |, ^), a == b -> b == a, a != b -> b != a, a < b -> b > a, a <= b -> b >= a."""
+
+    def visit_BinOp(self, node):
+        self.generic_visit(node)
+        if isinstance(node.op, (ast.BitAnd, ast.BitOr, ast.BitXor)):
+            node.left, node.right = node.right, node.left
+        return node
+
+    def visit_Compare(self, node):
+        self.generic_visit(node)
+        if len(node.ops) == 1:
+            flip = {ast.Eq: ast.Eq, ast.NotEq: ast.NotEq, ast.Lt: ast.Gt, ast.Gt: ast.Lt, ast.LtE: ast.GtE, ast.GtE: ast.LtE}
+            t = type(node.ops[0])
+            if t in flip:
+                node.left, node.comparators = node.comparators[0], [node.left]
+                node.ops = [flip[t]()]
+        return node
+
+
+class _IfSwapper(ast.NodeTransformer):
+    """if c: A else: B  ->  if not c: B else: A   (python-level two-armed ifs only, no elif chains)."""
+
+    def visit_If(self, node):
+        self.generic_visit(node)
+        if node.orelse and not (len(node.orelse) == 1 and isinstance(node.orelse[0], ast.If)):
+            node.test = ast.UnaryOp(op=ast.Not(), operand=node.test)
+            node.body, node.orelse = node.orelse, node.body
+        return node
+
+    def visit_IfExp(self, node):
+        self.generic_visit(node)
+        node.test = ast.UnaryOp(op=ast.Not(), operand=node.test)
+        node.body, node.orelse = node.orelse, node.body
+        return node
+
+
+def tree_variant(src: str, transformer) -> str:
+    tree = transformer.visit(ast.parse(src))
+    ast.fix_missing_locations(tree)
+    return ast.unparse(tree) + "\n"
+
+
 def build(variant: str, root: str):
     n = 0
     for path in glob.glob(f"{SRC}/transactron/**/*.py", recursive=True) + glob.glob(f"{SRC}/test/**/*.py", recursive=True):
@@ -162,7 +205,16 @@ def build(variant: str, root: str):
         src = open(path).read()
         if rel.startswith("transactron/"):
             try:
-                src2 = unparse_variant(src) if variant == "unparse" else rename_variant(src, rel)
+                if variant == "unparse":
+                    src2 = unparse_variant(src)
+                elif variant == "rename":
+                    src2 = rename_variant(src, rel)
+                elif variant == "swap":
+                    src2 = tree_variant(src, _Swapper())
+                elif variant == "ifswap":
+                    src2 = tree_variant(src, _IfSwapper())
+                else:
+                    raise SystemExit(f"unknown variant {variant}")
                 n += 1
             except Exception as e:  # keep the original when the transformation is not applicable
                 print(f"  kept {rel}: {type(e).__name__}: {e}")
@@ -174,7 +226,7 @@ def build(variant: str, root: str):
 
 
 def main():
-    variants = sys.argv[1:] or ["unparse", "rename"]
+    variants = [a for a in sys.argv[1:] if not a.startswith("--")] or ["unparse", "rename", "swap", "ifswap"]
     packs = sorted(os.path.basename(p)[:-3] for p in glob.glob(f"{VERIF}/tsa/rules/C[0-9][0-9].py"))
     for variant in variants:
         root = tempfile.mkdtemp(prefix=f"benign_{variant}_")
